@@ -49,6 +49,10 @@ def jobs(tier, seed):
     rng = random.Random(seed + 14)
     n, leaves = (220, 5) if tier == 'quick' else (1500, 8)
     out = []
+    # adjacent measurements are fused by stim into one multi-target instruction: error patterns a,b,a / a,a,b / a,b,c along its targets
+    for meas in ([0, 1, 2], [2, 1, 0], [0, 2, 1], [1, 0, 2]):
+        for mp in ('a', 'b', 'd', 'c'):
+            out.append({'prog': {'steps': [{'k': ['G', 'Hadamard', [0]], 'rel': None}] + [{'k': ['M', q, 'a'], 'rel': None} for q in meas]}, 'map': mp})
     while len(out) < n:
         p = gen.random_program(rng, ALPHA, 3, 1, p_sub=0.25, p_rel=0.0, reps=(1, 2), sub_rel=False)
         if 2 <= gen.count_leaves(p) <= leaves:
@@ -56,7 +60,8 @@ def jobs(tier, seed):
     dmax, cmax = (2, 1) if tier == 'quick' else (3, 3)
     for d in range(2, dmax + 1):
         for cycles in range(0, cmax + 1):
-            out.append({'library': {'kind': 'full', 'd': d, 'cycles': cycles}, 'map': 'c'})   # library circuits: default settings for every qubit
+            out.append({'library': {'kind': 'full', 'd': d, 'cycles': cycles}, 'map': 'c'})
+    out.append({'library': {'kind': 'full', 'd': 2, 'cycles': 0}, 'map': 'd'})   # per-qubit settings for the middle qubit only   # library circuits: default settings for every qubit
     return out
 
 
@@ -112,7 +117,7 @@ def make_settings(ctx, which):
     object.__setattr__(ns, 'default_t1', default['t1'])
     object.__setattr__(ns, 'default_t2', default['t2'])
     object.__setattr__(ns, 'default_assignment_error', default['err'])
-    index_map = {'a': {0: QubitIDObj('QA'), 2: QubitIDObj('QB')}, 'b': {0: QubitIDObj('QB'), 1: QubitIDObj('QA'), 2: QubitIDObj('QC')}, 'c': {}}[which]
+    index_map = {'a': {0: QubitIDObj('QA'), 2: QubitIDObj('QB')}, 'b': {0: QubitIDObj('QB'), 1: QubitIDObj('QA'), 2: QubitIDObj('QC')}, 'c': {}, 'd': {1: QubitIDObj('QA')}}[which]
     params_of = {}
     for q in range(0, 8):
         qid = index_map.get(q)
